@@ -107,7 +107,9 @@ class ValPolicy(BasePolicy):
     def refine(self, test, polarity, state, flow):
         if polarity:
             return state
-        f = Normaliser(mask_resolver(self.prog, self.fn, [k for k, v in self.roles.items() if v in ROLES5], test), self.rename).quant(test, True)
+        from .c08 import inline_mask_helper
+
+        f = Normaliser(mask_resolver(self.prog, self.fn, [k for k, v in self.roles.items() if v in ROLES5], test), self.rename, inline=inline_mask_helper(self.prog, self.fn)).quant(test, True)
         ds = {show(d) for d in top_disjuncts(f)}
         inv = {v: k for k, v in self.roles.items()}
         if "ANY[x0 < lb]" in ds and "ANY[ub < x0]" in ds and "x0" in inv:
